@@ -237,10 +237,12 @@ pub fn analyse(src: &str, p: &mut Prng) -> Analysis {
                 }
             }
             deps.sort();
+            let wide = src.starts_with(crate::gen::WIDE_CONSTS_MARKER);
             let consts = deps
                 .into_iter()
                 .map(|(party, name, ty)| {
                     let val = match ty.as_str() {
+                        t if wide && t != "bool" => *p.pick(&crate::gen::boundary_values(t)),
                         "bool" => p.below(2) as i64,
                         "usize" => p.range(1, 4) as i64,
                         t if t.starts_with('i') => p.range(0, 6) as i64 - 3,
